@@ -242,10 +242,19 @@ func VerifC06TwoSteps() {
 
 // regex FS: pieces between the non-empty leftmost-longest matches; model of the regexp result by contract
 func verifRegexFindAll(pattern, s string, n int) [][]int {
+	var out [][]int
+	if len(pattern) == 1 && (pattern[0] >= 'a' && pattern[0] <= 'z') {
+		// a single literal letter: every occurrence
+		for i := 0; i < len(s); i++ {
+			if s[i] == pattern[0] {
+				out = append(out, []int{i, i + 1})
+			}
+		}
+		return out
+	}
 	if pattern != "X+" {
 		panic("verifRegexFindAll: no model for " + pattern)
 	}
-	var out [][]int
 	for i := 0; i < len(s); {
 		if s[i] == 'X' {
 			j := i + 1
